@@ -1401,6 +1401,8 @@ class TransferManager(BaseManager):
                     username
                 )
                 if not shared_item:
+                    # The upload can be in progress: stop it before failing it
+                    await asyncio.gather(*transfer.cancel_tasks(), return_exceptions=True)
                     await transfer.state.fail(FailReason.FILE_NOT_SHARED)
                     await connection.send_message(
                         PeerTransferReply.Request(
